@@ -136,18 +136,19 @@ def project(cfg, code, headers, calls, texts_rev, req_query_raw, mount=''):
     return {'k': 'status-%d' % code}
 
 
-def exchange(cfg, req, texts):
+def exchange(cfg, req, texts, force_split=None):
     """returns (o1, o2 or None) projected observations + diagnostics"""
     log = Log()
     import zlib
     crc = zlib.crc32(json.dumps([cfg, req['path'], req['method']], sort_keys=True).encode('utf8'))     # (not the query)
     # one long-lived application per (configuration, split): every exchange is served by an application that has already
     # answered other requests - other paths, other queries, earlier redirects to the same canonical path
-    key = (json.dumps(cfg, sort_keys=True), crc % 12)
+    split = crc % 12 if force_split is None else force_split
+    key = (json.dumps(cfg, sort_keys=True), split)
     if key not in APPS:
         if len(APPS) > 4000:
             APPS.clear()
-        APPS[key] = (build(cfg, Log(), split=crc % 12), )
+        APPS[key] = (build(cfg, Log(), split=split), )
     app = APPS[key][0]
     log = app._verif_log
     mount = '/mnt' if (crc >> 9) % 3 == 0 else ''
@@ -219,6 +220,13 @@ def check(run):
         o1, o2, ptxt = exchange(rec['cfg'], rec['req'], texts)
         run.evaluations += 1
         sig = compare(rec, o1, o2, texts)
+        if not sig and rec['cfg'].get('embed') and rec['cfg']['kind'] == 'staticB':
+            # the same behaviour with the pattern split as prefix '/a/b' + the embedded application's ROOT route '/'
+            o1r, o2r, _p = exchange(rec['cfg'], rec['req'], texts, force_split=0)
+            sig = compare(rec, o1r, o2r, texts)
+            if sig:
+                sig += ':embedded-root-route'
+                o1, o2 = o1r, o2r
         if not sig and rec['ans1']['k'] == 'redirect':
             # the same path again, on the same application, with ANOTHER query string: the answer is the same, with this query
             other = 'q2' if rec['req']['query'] != 'q2' else 'q3'
